@@ -3,7 +3,7 @@ CompileLabels — the label marks emitted by the compiler are fresh (distinct, f
 output of `compProg` has unique marks and contains the code of every function (`progCode_compProg`), and the
 invocation of a function from outside halts with its result (`entry_halt`).
 -/
-import NeoModel.Proofs.CompileFull
+import NeoModel.Proofs.CompileAll
 namespace NeoModel.CompileProofs
 open NeoModel.MiniVm NeoModel.MiniVm.Asm NeoModel.MiniGo NeoModel.Compile
 
@@ -228,30 +228,69 @@ theorem dropN_labels (n lo hi : Nat) : LabelsIn (dropN n) lo hi := by
 theorem labelsIn_cons_ins {c : Code} {lo hi : Nat} (h : LabelsIn c lo hi) (op : Op Nat) : LabelsIn (.ins op :: c) lo hi := by
   simpa using h.ins_append [op]
 
-/-- the marks that `compS` emits are fresh. -/
-theorem compS_labels (cx : Ctx) : ∀ (s : Stmt) (lp : LoopCtx) (st : St),
-    st.nl ≤ (compS cx lp s st).2.nl ∧ LabelsIn (compS cx lp s st).1 st.nl (compS cx lp s st).2.nl := by
+/-- clauses (`case`, `default`) occur only as the clause chain of a `switch`; `c` = in chain position. -/
+def WfS (c : Bool) : Stmt → Prop
+  | .skip => True
+  | .seq a b => c = false ∧ WfS false a ∧ WfS false b
+  | .ite _ t _ e => c = false ∧ WfS false t ∧ WfS false e
+  | .loop i _ p b => c = false ∧ WfS false i ∧ WfS false p ∧ WfS false b
+  | .block b => c = false ∧ WfS false b
+  | .labeled _ s => c = false ∧ WfS false s
+  | .switchS _ _ cl => c = false ∧ WfS true cl
+  | .caseS _ _ b _ rest => c = true ∧ WfS false b ∧ WfS true rest
+  | .defaultS b => c = true ∧ WfS false b
+  | _ => c = false
+
+/-- the marks of a clause chain: start labels from the block reserved by the switch, the rest from the counter. -/
+def ChainLabels (c : Code) (sb n lo hi : Nat) : Prop :=
+  (∀ l ∈ labelsOf c, (sb ≤ l ∧ l < sb + n) ∨ (lo ≤ l ∧ l < hi)) ∧ (labelsOf c).Nodup
+
+theorem dropItems_labels (n lo hi : Nat) : LabelsIn (dropItems n) lo hi := by
+  unfold dropItems
+  split
+  · exact dropN_labels _ _ _
+  · exact ⟨by simp [labelsOf], by simp [labelsOf]⟩
+
+@[simp] theorem phantom_nl (cx : Ctx) (st : St) (l : String) : (st.phantom cx l).nl = st.nl := by
+  rcases phantom_cases cx st l with h | h <;> rw [h]
+  simp
+
+/-- the marks that `compS` emits are fresh (statements), resp. fresh or from the reserved block (clause chains). -/
+theorem compS_labels_aux (cx : Ctx) : ∀ (s : Stmt),
+    (∀ (lp : LoopCtx) (st : St), WfS false s →
+      st.nl ≤ (compS cx lp s st).2.nl ∧ LabelsIn (compS cx lp s st).1 st.nl (compS cx lp s st).2.nl) ∧
+    (∀ (lp : LoopCtx) (st : St), WfS true s → st.sb + clauseCount s ≤ st.nl →
+      st.nl ≤ (compS cx lp s st).2.nl ∧ ChainLabels (compS cx lp s st).1 st.sb (clauseCount s) st.nl (compS cx lp s st).2.nl) := by
   intro s
   induction s with
-  | skip => intro lp st; simp only [compS]; exact ⟨Nat.le_refl _, labelsIn_nil _ _⟩
+  | skip =>
+    refine ⟨fun lp st _ => ?_, fun lp st _ _ => ?_⟩
+    · simp only [compS]; exact ⟨Nat.le_refl _, labelsIn_nil _ _⟩
+    · simp only [compS]; exact ⟨Nat.le_refl _, by simp [labelsOf], by simp [labelsOf]⟩
   | seq a b iha ihb =>
-    intro lp st
+    refine ⟨?_, fun lp st hw _ => by simp [WfS] at hw⟩
+    intro lp st hw
+    have iha := fun lp st => iha.1 lp st hw.2.1
+    have ihb := fun lp st => ihb.1 lp st hw.2.2
     simp only [compS]
     have ha := iha lp st
     have hb := ihb lp (compS cx lp a st).2
     exact ⟨Nat.le_trans ha.1 hb.1, ha.2.append hb.2 ha.1 hb.1⟩
   | define x e =>
-    intro lp st
+    refine ⟨?_, fun lp st hw _ => by simp [WfS] at hw⟩
+    intro lp st hw
     simp only [compS, newLocal_nl]
     have he := compE_labels cx st.scopes e .val st.nl
     exact ⟨he.1, he.2.append (storeVar_labels _ _ _ _ _) he.1 (Nat.le_refl _)⟩
   | assign x e =>
-    intro lp st
+    refine ⟨?_, fun lp st hw _ => by simp [WfS] at hw⟩
+    intro lp st hw
     simp only [compS]
     have he := compE_labels cx st.scopes e .val st.nl
     exact ⟨he.1, he.2.append (storeVar_labels _ _ _ _ _) he.1 (Nat.le_refl _)⟩
   | opAssign x op e =>
-    intro lp st
+    refine ⟨?_, fun lp st hw _ => by simp [WfS] at hw⟩
+    intro lp st hw
     simp only [compS]
     have he := compE_labels cx st.scopes e .val st.nl
     refine ⟨he.1, ?_⟩
@@ -259,15 +298,18 @@ theorem compS_labels (cx : Ctx) : ∀ (s : Stmt) (lp : LoopCtx) (st : St),
     have h2 := labelsIn_one_more h1 (tokenOp op)
     exact h2.append (storeVar_labels _ _ _ _ _) he.1 (Nat.le_refl _)
   | inc x =>
-    intro lp st
+    refine ⟨?_, fun lp st hw _ => by simp [WfS] at hw⟩
+    intro lp st hw
     simp only [compS]
     exact ⟨Nat.le_refl _, (labelsIn_one_more (loadVar_labels cx st.scopes x st.nl st.nl) _).append (storeVar_labels _ _ _ _ _) (Nat.le_refl _) (Nat.le_refl _)⟩
   | dec x =>
-    intro lp st
+    refine ⟨?_, fun lp st hw _ => by simp [WfS] at hw⟩
+    intro lp st hw
     simp only [compS]
     exact ⟨Nat.le_refl _, (labelsIn_one_more (loadVar_labels cx st.scopes x st.nl st.nl) _).append (storeVar_labels _ _ _ _ _) (Nat.le_refl _) (Nat.le_refl _)⟩
   | varDecl x b init =>
-    intro lp st
+    refine ⟨?_, fun lp st hw _ => by simp [WfS] at hw⟩
+    intro lp st hw
     cases init with
     | none =>
       simp only [compS, newLocal_nl]
@@ -277,48 +319,59 @@ theorem compS_labels (cx : Ctx) : ∀ (s : Stmt) (lp : LoopCtx) (st : St),
       have he := compE_labels cx (st.newLocal x).scopes e .val st.nl
       exact ⟨he.1, he.2.append (storeVar_labels _ _ _ _ _) he.1 (Nat.le_refl _)⟩
   | exprStmt e =>
-    intro lp st
+    refine ⟨?_, fun lp st hw _ => by simp [WfS] at hw⟩
+    intro lp st hw
     simp only [compS]
     have he := compE_labels cx st.scopes e .val st.nl
     exact ⟨he.1, he.2.append (dropN_labels _ _ _) he.1 (Nat.le_refl _)⟩
   | discard e =>
-    intro lp st
+    refine ⟨?_, fun lp st hw _ => by simp [WfS] at hw⟩
+    intro lp st hw
     simp only [compS]
     have he := compE_labels cx st.scopes e .val st.nl
     exact ⟨he.1, labelsIn_one_more he.2 _⟩
   | panicS e =>
-    intro lp st
+    refine ⟨?_, fun lp st hw _ => by simp [WfS] at hw⟩
+    intro lp st hw
     simp only [compS]
     have he := compE_labels cx st.scopes e .val st.nl
     exact ⟨he.1, labelsIn_one_more he.2 _⟩
   | ret e =>
-    intro lp st
+    refine ⟨?_, fun lp st hw _ => by simp [WfS] at hw⟩
+    intro lp st hw
     cases e with
-    | none => simp only [compS]; exact ⟨Nat.le_refl _, labelsIn_ins _ _ _⟩
+    | none => simp only [compS]; exact ⟨Nat.le_refl _, (dropItems_labels _ _ _).append (labelsIn_ins _ _ _) (Nat.le_refl _) (Nat.le_refl _)⟩
     | some e =>
       simp only [compS]
       have he := compE_labels cx st.scopes e .val st.nl
-      exact ⟨he.1, labelsIn_one_more he.2 _⟩
+      exact ⟨he.1, labelsIn_one_more ((dropItems_labels _ st.nl st.nl).append he.2 (Nat.le_refl _) he.1) _⟩
   | brk =>
-    intro lp st
+    refine ⟨?_, fun lp st hw _ => by simp [WfS] at hw⟩
+    intro lp st hw
     simp only [compS]
     refine ⟨Nat.le_refl _, ?_⟩
-    cases lp with
-    | none => exact labelsIn_nil _ _
-    | some p => exact labelsIn_ins _ _ _
+    split
+    · exact (dropItems_labels _ _ _).append (labelsIn_ins _ _ _) (Nat.le_refl _) (Nat.le_refl _)
+    · exact labelsIn_nil _ _
   | cont =>
-    intro lp st
+    refine ⟨?_, fun lp st hw _ => by simp [WfS] at hw⟩
+    intro lp st hw
     simp only [compS]
     refine ⟨Nat.le_refl _, ?_⟩
-    cases lp with
-    | none => exact labelsIn_nil _ _
-    | some p => exact labelsIn_ins _ _ _
+    split
+    · exact (dropItems_labels _ _ _).append (labelsIn_ins _ _ _) (Nat.le_refl _) (Nat.le_refl _)
+    · exact labelsIn_nil _ _
   | block body ih =>
-    intro lp st
+    refine ⟨?_, fun lp st hw _ => by simp [WfS] at hw⟩
+    intro lp st hw
+    have ih := fun lp st => ih.1 lp st hw.2
     rw [compS_block]
     simpa using ih lp st.push
   | ite c thn k els iht ihe =>
-    intro lp st
+    refine ⟨?_, fun lp st hw _ => by simp [WfS] at hw⟩
+    intro lp st hw
+    have iht := fun lp st => iht.1 lp st hw.2.1
+    have ihe := fun lp st => ihe.1 lp st hw.2.2
     have hc := compE_labels cx (ifSt0 st).scopes c (.jump false (st.nl + 1)) (ifSt0 st).nl
     have hc1 : st.nl + 3 ≤ (ifCond cx c st).2 := hc.1
     have hc2 : LabelsIn (ifCond cx c st).1 (st.nl + 3) (ifCond cx c st).2 := hc.2
@@ -358,7 +411,11 @@ theorem compS_labels (cx : Ctx) : ∀ (s : Stmt) (lp : LoopCtx) (st : St),
       simp only [labelsOf_append, labelsOf, List.count_append, List.count_cons, List.count_nil]
       omega
   | loop init cond post body ihi ihp ihb =>
-    intro lp st
+    refine ⟨?_, fun lp st hw _ => by simp [WfS] at hw⟩
+    intro lp st hw
+    have ihi := fun lp st => ihi.1 lp st hw.2.1
+    have ihp := fun lp st => ihp.1 lp st hw.2.2.1
+    have ihb := fun lp st => ihb.1 lp st hw.2.2.2
     rw [compS_loop]
     have hi := ihi lp (forSt0 st)
     have hi1 : st.nl + 3 ≤ (forSt1 cx lp init st).nl := hi.1
@@ -370,9 +427,9 @@ theorem compS_labels (cx : Ctx) : ∀ (s : Stmt) (lp : LoopCtx) (st : St),
       | some c =>
         have := compE_labels cx (forSt1 cx lp init st).scopes c .val (forSt1 cx lp init st).nl
         exact ⟨this.1, labelsIn_one_more this.2 _⟩
-    have hb := ihb (some (st.nl + 1, st.nl + 2)) (forStB cx lp init cond st)
+    have hb := ihb (forEnt st :: lp) (forStB cx lp init cond st)
     have hb1 : (forCond cx lp init cond st).2 ≤ (forSt3 cx lp init cond body st).nl := hb.1
-    have hb2 : LabelsIn (compS cx (some (st.nl + 1, st.nl + 2)) body (forStB cx lp init cond st)).1 (forCond cx lp init cond st).2
+    have hb2 : LabelsIn (compS cx (forEnt st :: lp) body (forStB cx lp init cond st)).1 (forCond cx lp init cond st).2
         (forSt3 cx lp init cond body st).nl := hb.2
     have hp := ihp lp (forSt3 cx lp init cond body st)
     refine ⟨by simp only [pop_nl]; omega, ?_⟩
@@ -383,24 +440,221 @@ theorem compS_labels (cx : Ctx) : ∀ (s : Stmt) (lp : LoopCtx) (st : St),
     intro n
     simp only [labelsOf_append, labelsOf, List.count_append, List.count_cons, List.count_nil]
     omega
+  | labeled l s ih =>
+    refine ⟨?_, fun lp st hw _ => by simp [WfS] at hw⟩
+    intro lp st hw
+    rw [compS_labeled]
+    exact ih.1 lp { st with nextLabel := some l } hw.2
+  | brkL l =>
+    refine ⟨?_, fun lp st hw _ => by simp [WfS] at hw⟩
+    intro lp st hw
+    simp only [compS, phantom_nl]
+    refine ⟨Nat.le_refl _, ?_⟩
+    refine LabelsIn.append ?_ (loadVar_labels _ _ _ _ _) (Nat.le_refl _) (Nat.le_refl _)
+    split
+    · exact (dropItems_labels _ _ _).append (labelsIn_ins _ _ _) (Nat.le_refl _) (Nat.le_refl _)
+    · exact labelsIn_nil _ _
+  | contL l =>
+    refine ⟨?_, fun lp st hw _ => by simp [WfS] at hw⟩
+    intro lp st hw
+    simp only [compS, phantom_nl]
+    refine ⟨Nat.le_refl _, ?_⟩
+    refine LabelsIn.append ?_ (loadVar_labels _ _ _ _ _) (Nat.le_refl _) (Nat.le_refl _)
+    split
+    · exact (dropItems_labels _ _ _).append (labelsIn_ins _ _ _) (Nat.le_refl _) (Nat.le_refl _)
+    · exact labelsIn_nil _ _
+  | switchS tag ti cl ih =>
+    refine ⟨?_, fun lp st hw _ => by simp [WfS] at hw⟩
+    intro lp st hw
+    rw [compS_switch]
+    have ht : st.nl ≤ (swTag cx tag st).2 ∧ LabelsIn (swTag cx tag st).1 st.nl (swTag cx tag st).2 := by
+      cases tag with
+      | none => exact ⟨Nat.le_refl _, labelsIn_ins _ _ _⟩
+      | some e => exact compE_labels cx st.push.scopes e .val st.nl
+    have hc := ih.2 (swEnt cx tag ti st :: lp) (swSt1 cx tag cl st) hw.2 (by simp [swSt1] <;> omega)
+    have hnl1 : (swSt1 cx tag cl st).nl = (swTag cx tag st).2 + 1 + clauseCount cl := rfl
+    have hsb1 : (swSt1 cx tag cl st).sb = (swTag cx tag st).2 + 1 := rfl
+    rw [hnl1, hsb1] at hc
+    generalize (compS cx (swEnt cx tag ti st :: lp) cl (swSt1 cx tag cl st)) = rc at hc ⊢
+    generalize (swTag cx tag st) = rt at ht hc ⊢
+    obtain ⟨hc1, hc2, hc3⟩ := hc
+    refine ⟨by simp only [pop_nl]; omega, ?_, ?_⟩
+    · intro l hl
+      simp only [labelsOf_append, labelsOf, List.mem_append, List.mem_cons, List.not_mem_nil, or_false] at hl
+      simp only [pop_nl]
+      rcases hl with (h | h) | h
+      · have := ht.2.1 l h; omega
+      · rcases hc2 l h with h' | h' <;> omega
+      · omega
+    · simp only [labelsOf_append, labelsOf]
+      refine List.nodup_append.mpr ⟨List.nodup_append.mpr ⟨ht.2.2, hc3, ?_⟩, by simp, ?_⟩
+      · intro x hx y hy hxy
+        subst hxy
+        have := ht.2.1 x hx
+        rcases hc2 x hy with h' | h' <;> omega
+      · intro x hx y hy hxy
+        simp at hy
+        subst hxy; subst hy
+        rcases List.mem_append.mp hx with h | h
+        · have := ht.2.1 _ h; omega
+        · rcases hc2 _ h with h' | h' <;> omega
+  | caseS e1 e2 body ft rest ihb ihr =>
+    refine ⟨fun lp st hw => by simp [WfS] at hw, ?_⟩
+    intro lp st hw hsb
+    simp only [clauseCount] at hsb ⊢
+    rw [compS_case]
+    have hT : st.nl + 1 ≤ (csTests cx lp e1 e2 st).2 ∧ LabelsIn (csTests cx lp e1 e2 st).1 (st.nl + 1) (csTests cx lp e1 e2 st).2 := by
+      have h1 := compE_labels cx st.scopes e1 .val (st.nl + 1)
+      cases e2 with
+      | none =>
+        simp only [csTests]
+        refine ⟨h1.1, ?_⟩
+        have := labelsIn_two_more (labelsIn_cons_ins h1.2 .dup) (csEq lp) (.jmpIfNot st.nl)
+        simpa using this
+      | some e2 =>
+        simp only [csTests]
+        have h2 := compE_labels cx st.scopes e2 .val (compE cx st.scopes e1 .val (st.nl + 1)).2
+        refine ⟨Nat.le_trans h1.1 h2.1, ?_⟩
+        have a1 := labelsIn_two_more (labelsIn_cons_ins h1.2 .dup) (csEq lp) (.jmpIf st.sb)
+        have a2 := labelsIn_two_more (labelsIn_cons_ins h2.2 .dup) (csEq lp) (.jmpIfNot st.nl)
+        have := a1.append a2 h1.1 h2.1
+        simpa using this
+    have hb := ihb.1 lp (csStB cx lp e1 e2 st) hw.2.1
+    have hnlB : (csStB cx lp e1 e2 st).nl = (csTests cx lp e1 e2 st).2 := rfl
+    rw [hnlB] at hb
+    have hnlR : (csStR cx lp e1 e2 body st).nl = (compS cx lp body (csStB cx lp e1 e2 st)).2.nl := rfl
+    have hsbR : (csStR cx lp e1 e2 body st).sb = st.sb + 1 := rfl
+    have hr := ihr.2 lp (csStR cx lp e1 e2 body st) hw.2.2 (by rw [hnlR, hsbR]; omega)
+    rw [hnlR, hsbR] at hr
+    generalize (compS cx lp rest (csStR cx lp e1 e2 body st)) = rr at hr ⊢
+    generalize (compS cx lp body (csStB cx lp e1 e2 st)) = rb at hb hr ⊢
+    generalize (csTests cx lp e1 e2 st) = rt at hT hb ⊢
+    obtain ⟨hr1, hr2, hr3⟩ := hr
+    have hfall : labelsOf (if ft then [Item.ins (.jmp (st.sb + 1))] else ([] : Code)) = [] := by split <;> rfl
+    dsimp only
+    refine ⟨by omega, ?_, ?_⟩
+    · intro l hl
+      simp only [labelsOf_append, labelsOf, hfall, List.mem_append, List.mem_cons, List.not_mem_nil, or_false, List.append_nil] at hl
+      rcases hl with ((((h | h) | h) | h) | h)
+      · have := hT.2.1 l h; omega
+      · omega
+      · have := hb.2.1 l h; omega
+      · omega
+      · rcases hr2 l h with h' | h' <;> omega
+    · simp only [labelsOf_append, labelsOf, hfall, List.append_nil]
+      refine List.nodup_append.mpr ⟨List.nodup_append.mpr ⟨List.nodup_append.mpr ⟨List.nodup_append.mpr ⟨hT.2.2, by simp, ?_⟩, hb.2.2, ?_⟩, by simp, ?_⟩, hr3, ?_⟩
+      · intro x hx y hy hxy
+        simp at hy; subst hxy; subst hy
+        have := hT.2.1 _ hx; omega
+      · intro x hx y hy hxy
+        subst hxy
+        have := hb.2.1 _ hy
+        rcases List.mem_append.mp hx with h | h
+        · have := hT.2.1 _ h; omega
+        · simp at h; omega
+      · intro x hx y hy hxy
+        simp at hy; subst hxy; subst hy
+        rcases List.mem_append.mp hx with h | h
+        · rcases List.mem_append.mp h with h | h
+          · have := hT.2.1 _ h; omega
+          · simp at h; omega
+        · have := hb.2.1 _ h; omega
+      · intro x hx y hy hxy
+        subst hxy
+        have hy' := hr2 _ hy
+        rcases List.mem_append.mp hx with h | h
+        · rcases List.mem_append.mp h with h | h
+          · rcases List.mem_append.mp h with h | h
+            · have := hT.2.1 _ h; omega
+            · simp at h; omega
+          · have := hb.2.1 _ h; omega
+        · simp at h; omega
+  | defaultS body ih =>
+    refine ⟨fun lp st hw => by simp [WfS] at hw, ?_⟩
+    intro lp st hw hsb
+    simp only [clauseCount] at hsb ⊢
+    rw [compS_default]
+    have hb := ih.1 lp (dfStB st) hw.2
+    have hnlB : (dfStB st).nl = st.nl + 1 := rfl
+    rw [hnlB] at hb
+    generalize (compS cx lp body (dfStB st)) = rb at hb ⊢
+    refine ⟨by simp only [pop_nl]; omega, ?_, ?_⟩
+    · intro l hl
+      simp only [labelsOf_append, labelsOf, List.mem_append, List.mem_cons, List.not_mem_nil, or_false] at hl
+      simp only [pop_nl]
+      rcases hl with (h | h) | h
+      · omega
+      · have := hb.2.1 l h; omega
+      · omega
+    · simp only [labelsOf_append, labelsOf]
+      refine List.nodup_append.mpr ⟨List.nodup_append.mpr ⟨by simp, hb.2.2, ?_⟩, by simp, ?_⟩
+      · intro x hx y hy hxy
+        simp at hx; subst hxy; subst hx
+        have := hb.2.1 _ hy; omega
+      · intro x hx y hy hxy
+        simp at hy; subst hxy; subst hy
+        rcases List.mem_append.mp hx with h | h
+        · simp at h; omega
+        · have := hb.2.1 _ h; omega
+
+/-- the marks that `compS` emits for a statement are fresh. -/
+theorem compS_labels (cx : Ctx) (s : Stmt) (lp : LoopCtx) (st : St) (hw : WfS false s) :
+    st.nl ≤ (compS cx lp s st).2.nl ∧ LabelsIn (compS cx lp s st).1 st.nl (compS cx lp s st).2.nl :=
+  (compS_labels_aux cx s).1 lp st hw
 
 end NeoModel.CompileProofs
 
 namespace NeoModel.CompileProofs
 open NeoModel.MiniVm NeoModel.MiniVm.Asm NeoModel.MiniGo NeoModel.Compile
 
-theorem compFunc_labels (tbl : List (String × Nat × Nat)) (d : FuncDecl) (label nl : Nat) (hl : label < nl) :
+mutual
+/-- allowed statements are well-formed: clauses occur only as clause chains of `switch` statements. -/
+theorem allowed_wfS : ∀ (s : Stmt) (ls : Sigs), Allowed ls s → WfS false s
+  | .skip, _, _ => trivial
+  | .seq a b, ls, h => by simp only [Allowed] at h; exact ⟨rfl, allowed_wfS a ls h.1, allowed_wfS b ls h.2⟩
+  | .ite _ t _ e, ls, h => by simp only [Allowed] at h; exact ⟨rfl, allowed_wfS t ls h.1, allowed_wfS e ls h.2⟩
+  | .loop i _ p b, ls, h => by
+    simp only [Allowed] at h
+    exact ⟨rfl, allowed_wfS i ls h.1, allowed_wfS p ls (noDecl_allowed h.2.1 ls), allowed_wfS b _ h.2.2⟩
+  | .block b, ls, h => by simp only [Allowed] at h; exact ⟨rfl, allowed_wfS b ls h⟩
+  | .labeled _ (.loop i _ p b), ls, h => by
+    simp only [Allowed] at h
+    exact ⟨rfl, rfl, allowed_wfS i ls h.1, allowed_wfS p ls (noDecl_allowed h.2.1 ls), allowed_wfS b _ h.2.2⟩
+  | .labeled _ (.switchS _ _ cl), ls, h => by simp only [Allowed] at h; exact ⟨rfl, rfl, allowed_chain cl _ h.2⟩
+  | .switchS _ _ cl, ls, h => by simp only [Allowed] at h; exact ⟨rfl, allowed_chain cl _ h.2⟩
+  | .define _ _, _, _ | .assign _ _, _, _ | .opAssign _ _ _, _, _ | .inc _, _, _ | .dec _, _, _
+  | .varDecl _ _ _, _, _ | .exprStmt _, _, _ | .discard _, _, _ | .panicS _, _, _ | .ret _, _, _ | .brk, _, _ | .cont, _, _
+  | .brkL _, _, _ | .contL _, _, _ => rfl
+  | .caseS _ _ _ _ _, _, h => by simp [Allowed] at h
+  | .defaultS _, _, h => by simp [Allowed] at h
+  | .labeled _ .skip, _, h | .labeled _ (.seq _ _), _, h | .labeled _ (.define _ _), _, h | .labeled _ (.assign _ _), _, h
+  | .labeled _ (.opAssign _ _ _), _, h | .labeled _ (.inc _), _, h | .labeled _ (.dec _), _, h | .labeled _ (.varDecl _ _ _), _, h
+  | .labeled _ (.exprStmt _), _, h | .labeled _ (.discard _), _, h | .labeled _ (.panicS _), _, h | .labeled _ (.ite _ _ _ _), _, h
+  | .labeled _ (.ret _), _, h | .labeled _ .brk, _, h | .labeled _ .cont, _, h | .labeled _ (.block _), _, h
+  | .labeled _ (.labeled _ _), _, h | .labeled _ (.brkL _), _, h | .labeled _ (.contL _), _, h
+  | .labeled _ (.caseS _ _ _ _ _), _, h | .labeled _ (.defaultS _), _, h => by simp [Allowed] at h
+theorem allowed_chain : ∀ (cl : Stmt) (ls : Sigs), AllowedCl ls cl → WfS true cl
+  | .skip, _, _ => trivial
+  | .defaultS b, ls, h => by simp only [AllowedCl] at h; exact ⟨rfl, allowed_wfS b ls h⟩
+  | .caseS _ _ b _ rest, ls, h => by simp only [AllowedCl] at h; exact ⟨rfl, allowed_wfS b ls h.1, allowed_chain rest ls h.2.1⟩
+  | .seq _ _, _, h | .define _ _, _, h | .assign _ _, _, h | .opAssign _ _ _, _, h | .inc _, _, h | .dec _, _, h
+  | .varDecl _ _ _, _, h | .exprStmt _, _, h | .discard _, _, h | .panicS _, _, h | .ite _ _ _ _, _, h
+  | .loop _ _ _ _, _, h | .ret _, _, h | .brk, _, h | .cont, _, h | .block _, _, h | .labeled _ _, _, h
+  | .brkL _, _, h | .contL _, _, h | .switchS _ _ _, _, h => by simp [AllowedCl] at h
+end
+
+theorem compFunc_labels (tbl : List (String × Nat × Nat)) (d : FuncDecl) (label nl : Nat) (hl : label < nl) (hw : WfS false d.body) :
     nl ≤ (compFunc tbl d label nl).2 ∧
     (∀ x ∈ labelsOf (compFunc tbl d label nl).1, x = label ∨ (nl ≤ x ∧ x < (compFunc tbl d label nl).2)) ∧
     (labelsOf (compFunc tbl d label nl).1).Nodup := by
-  have hb := compS_labels { funcs := tbl, args := d.params } (.block d.body) none { nl := nl, cnt := 0, scopes := [[]] }
+  have hb := compS_labels { funcs := tbl, args := d.params } (.block d.body) [] { nl := nl, cnt := 0, scopes := [[]] } ⟨rfl, hw⟩
   have hcode : (compFunc tbl d label nl).1 =
-      [Item.lbl label, initSlotItem (compS { funcs := tbl, args := d.params } none (.block d.body) { nl := nl, cnt := 0, scopes := [[]] }).2.cnt d.params.length] ++
-        (compS { funcs := tbl, args := d.params } none (.block d.body) { nl := nl, cnt := 0, scopes := [[]] }).1 ++
+      [Item.lbl label, initSlotItem (compS { funcs := tbl, args := d.params } [] (.block d.body) { nl := nl, cnt := 0, scopes := [[]] }).2.cnt d.params.length] ++
+        (compS { funcs := tbl, args := d.params } [] (.block d.body) { nl := nl, cnt := 0, scopes := [[]] }).1 ++
         (if lastIsRet d.body then [] else [Item.ins .ret]) := rfl
-  have hnl : (compFunc tbl d label nl).2 = (compS { funcs := tbl, args := d.params } none (.block d.body) { nl := nl, cnt := 0, scopes := [[]] }).2.nl := rfl
+  have hnl : (compFunc tbl d label nl).2 = (compS { funcs := tbl, args := d.params } [] (.block d.body) { nl := nl, cnt := 0, scopes := [[]] }).2.nl := rfl
   rw [hcode, hnl]
-  generalize compS { funcs := tbl, args := d.params } none (.block d.body) { nl := nl, cnt := 0, scopes := [[]] } = r at hb ⊢
+  generalize compS { funcs := tbl, args := d.params } [] (.block d.body) { nl := nl, cnt := 0, scopes := [[]] } = r at hb ⊢
   have htail : labelsOf (if lastIsRet d.body then ([] : Code) else [Item.ins .ret]) = [] := by
     split <;> simp [labelsOf]
   have hinit : ∀ a b, labelsOf [Item.lbl label, initSlotItem a b] = [label] := by
@@ -420,18 +674,18 @@ theorem compFunc_labels (tbl : List (String × Nat × Nat)) (d : FuncDecl) (labe
     simp only at this
     omega
 
-theorem compFuncs_labels (tbl : List (String × Nat × Nat)) : ∀ (l : List FuncDecl) (i nl : Nat), i + l.length ≤ nl →
+theorem compFuncs_labels (tbl : List (String × Nat × Nat)) : ∀ (l : List FuncDecl) (i nl : Nat), (∀ d ∈ l, WfS false d.body) → i + l.length ≤ nl →
     ∃ nl', nl ≤ nl' ∧
       (∀ x ∈ labelsOf (compFuncs tbl l i nl), (i ≤ x ∧ x < i + l.length) ∨ (nl ≤ x ∧ x < nl')) ∧
       (labelsOf (compFuncs tbl l i nl)).Nodup := by
   intro l
   induction l with
-  | nil => intro i nl _; exact ⟨nl, Nat.le_refl _, by simp [compFuncs, labelsOf], by simp [compFuncs, labelsOf]⟩
+  | nil => intro i nl _ _; exact ⟨nl, Nat.le_refl _, by simp [compFuncs, labelsOf], by simp [compFuncs, labelsOf]⟩
   | cons d r ih =>
-    intro i nl hle
+    intro i nl hw hle
     simp only [List.length_cons] at hle
-    have hf := compFunc_labels tbl d i nl (by omega)
-    obtain ⟨nl', h1, h2, h3⟩ := ih (i + 1) (compFunc tbl d i nl).2 (by omega)
+    have hf := compFunc_labels tbl d i nl (by omega) (hw d (by simp))
+    obtain ⟨nl', h1, h2, h3⟩ := ih (i + 1) (compFunc tbl d i nl).2 (fun d' hd' => hw d' (List.mem_cons_of_mem _ hd')) (by omega)
     simp only [compFuncs]
     refine ⟨nl', by omega, ?_, ?_⟩
     · intro x hx
@@ -470,13 +724,17 @@ theorem compFuncs_placed (tbl : List (String × Nat × Nat)) : ∀ (l : List Fun
 
 /-- (4) the output of `compProg` satisfies the hypotheses of the simulation theorems: its label marks are unique
     and every function's code sits in it. -/
-theorem progCode_compProg (P : Prog) : ProgCode (compProg P) P := by
+theorem progCode_compProg (P : Prog) (hw : ∀ d ∈ P, WfS false d.body) : ProgCode (compProg P) P := by
   refine ⟨?_, ?_⟩
-  · obtain ⟨_, _, _, h⟩ := compFuncs_labels (funcTable P) P 0 P.length (by omega)
+  · obtain ⟨_, _, _, h⟩ := compFuncs_labels (funcTable P) P 0 P.length hw (by omega)
     exact h
   · intro i d hi
     obtain ⟨pre, post, nl', he⟩ := compFuncs_placed (funcTable P) P 0 P.length i d hi
     exact ⟨pre.length, nl', pre, post, by simpa [compProg] using he, rfl⟩
+
+/-- … in particular for every program of allowed functions. -/
+theorem progCode_of_allowed (P : Prog) (hall : ∀ d ∈ P, Allowed [] d.body) : ProgCode (compProg P) P :=
+  progCode_compProg P (fun d hd => allowed_wfS d.body [] (hall d hd))
 
 end NeoModel.CompileProofs
 
@@ -484,7 +742,7 @@ namespace NeoModel.CompileProofs
 open NeoModel.MiniVm NeoModel.MiniVm.Asm NeoModel.MiniGo NeoModel.Compile
 
 /-- invocation of a function of the program from outside (no caller frame): the machine halts with the result. -/
-theorem entry_halt {P : Prog} {C : Code} (hpc : ProgCode C P) (hall : ∀ d ∈ P, Allowed false d.body)
+theorem entry_halt {P : Prog} {C : Code} (hpc : ProgCode C P) (hall : ∀ d ∈ P, Allowed [] d.body)
     {f : String} {vs rest : List Val} {v : Val} {fuel : Nat}
     (hrun : callF fuel P f vs = .ok v) (hdep : fuel < 1024) :
     ∃ pc0 n, findLabel C (fnLabel P f) = some pc0 ∧
@@ -516,11 +774,11 @@ theorem entry_halt {P : Prog} {C : Code} (hpc : ProgCode C P) (hall : ∀ d ∈ 
                 obtain ⟨pc0, nl, hp⟩ := hpc.funcs i d hi
                 have hmem : d ∈ P := List.mem_of_getElem? hi
                 have hcode : (compFunc (funcTable P) d i nl).1 =
-                    [Item.lbl i, initSlotItem (compS { funcs := funcTable P, args := d.params } none (.block d.body) { nl := nl, cnt := 0, scopes := [[]] }).2.cnt d.params.length] ++
-                      (compS { funcs := funcTable P, args := d.params } none (.block d.body) { nl := nl, cnt := 0, scopes := [[]] }).1 ++
+                    [Item.lbl i, initSlotItem (compS { funcs := funcTable P, args := d.params } [] (.block d.body) { nl := nl, cnt := 0, scopes := [[]] }).2.cnt d.params.length] ++
+                      (compS { funcs := funcTable P, args := d.params } [] (.block d.body) { nl := nl, cnt := 0, scopes := [[]] }).1 ++
                       (if lastIsRet d.body then [] else [Item.ins .ret]) := rfl
                 rw [hcode] at hp
-                generalize hN : (compS { funcs := funcTable P, args := d.params } none (.block d.body) { nl := nl, cnt := 0, scopes := [[]] }).2.cnt = N at hp
+                generalize hN : (compS { funcs := funcTable P, args := d.params } [] (.block d.body) { nl := nl, cnt := 0, scopes := [[]] }).2.cnt = N at hp
                 have hlbl : findLabel C i = some pc0 := hp.left.left.label hpc.nodup
                 refine ⟨pc0, ?_⟩
                 have h1 := skip_lbl (σ := State.mk pc0 (vs ++ rest) [] [] [] false) hp.left.left
@@ -529,18 +787,19 @@ theorem entry_halt {P : Prog} {C : Code} (hpc : ProgCode C P) (hall : ∀ d ∈ 
                 have hrel : VarsRel { funcs := funcTable P, args := d.params } [[]] { frames := [[]], args := d.params.zip vs } (List.replicate N .null) vs :=
                   ⟨by simp [FramesRel, FrameRel], zip_fst _ _ hlen, zip_snd _ _ hlen⟩
                 have hwf : Wf { nl := nl, cnt := 0, scopes := [[]] } := ⟨by simp [slotsOf], by simp [slotsOf], by simp⟩
-                have hbody := (allOK hpc hall k).stmt { funcs := funcTable P, args := d.params } rfl (.block d.body) none 0 false
+                have hbody := (allOK hpc hall k).stmt { funcs := funcTable P, args := d.params } rfl (.block d.body) [] []
                   { nl := nl, cnt := 0, scopes := [[]] } _ (State.mk (pc0 + 1 + 1) rest (List.replicate N .null) vs [] b) _
-                  (by simpa [Allowed] using hall d hmem) (by intro h; cases h) (Or.inr ⟨_, rfl⟩) hex
+                  (by simpa [Allowed] using hall d hmem) ⟨rfl, rfl, by simp [totalSz], by simp [totalSz]⟩
+                  (Or.inr ⟨⟨_, rfl⟩, fun e he => by cases he⟩) hex
                   (hp.left.right.cast (by simp)) hrel hwf (by simp [hN]) (by simp; omega)
                 obtain ⟨σ3, hr3, hret, hst3, hfr3⟩ := hbody
                 obtain ⟨n, hn⟩ := run_halt (stk := v :: rest) (h1.trans (h2.trans hr3))
-                  (by simp only at hst3 hfr3; simp [Asm.step, hret, stepOp, hfr3, hst3])
+                  (by simp only at hst3 hfr3; simp [Asm.step, hret, stepOp, hfr3, hst3, totalSz])
                 exact ⟨n, by rw [hlab]; exact hlbl, hn⟩
               · cases hrun
           | norm e => simp at hrun
-          | brk e => simp at hrun
-          | cont e => simp at hrun
+          | brk l e => simp at hrun
+          | cont l e => simp at hrun
         | panic => rw [hex] at hrun; simp at hrun
         | overflow => rw [hex] at hrun; simp at hrun
         | stuck => rw [hex] at hrun; simp at hrun
